@@ -278,7 +278,10 @@ def r01_4(ctx):
 
 
 def rules(ctx):
-    return [r01_1, r01_2, r01_3, r01_4, c07.r07_6, c11.r11_4]
+    from ..engine import only
+    return [r01_1, r01_2, r01_3, r01_4,
+            only(c07.r07_6, lambda k: "transform_attrs" in k or k.startswith("JSX attribute literal"), "string attribute values"),
+            c11.r11_4]
 
 
 EXPLANATION = (
